@@ -57,6 +57,8 @@ pub fn run(seed: u64, ntraces: usize) {
         if t % 3 == 0 && cur_token.is_some() { forced = if t % 6 == 0 { vec![(2, 40), (1, 40), (2, 8), (0, 40), (0, 8), (0, 1)] } else { vec![(1, 50), (2, 40), (0, 40), (2, 8), (1, 40), (1, 8)] };
                                                // the limit is lowered to ZERO in an epoch that already has flow in both directions: nothing is rejected for flow reasons any more
                                                forced.extend(vec![(2, 0), (1, 10), (0, 10), (1, 5000), (0, 60), (2, 40)]); }
+        // ... then (same traces): limit 10, 10 in, and a takeToken whose payment carries the token TWICE (10 and 5, each within the limit, 15 together): a multi-transfer is no valid payment, refused
+        if t % 3 == 0 && cur_token.is_some() { forced.extend(vec![(2, 10), (0, 10), (18, 10), (1, 10)]); }
         // directed role schedule (every third trace): propose, accept, hand back, replay the accept; (kind, 10*caller + target) over users [s, op, m, f, x]
         if t % 3 == 1 && operator.is_some() { forced = vec![(7, 14), (6, 12), (8, 41), (6, 21),      // a STALE proposal: the proposer hands the role on before the proposed account accepts (refused), then gets it back
                                                            (7, 14), (8, 41), (6, 41), (8, 41), (7, 13), (7, 14), (8, 31), (8, 41), (8, 41),
@@ -78,6 +80,7 @@ pub fn run(seed: u64, ntraces: usize) {
             let anyone = r.pick(&users).clone();
             let fo = if forced.is_empty() { None } else { Some(forced.remove(0)) };
             let k = if let Some((fk, _)) = fo { fk } else if flow_focus { *r.pick(&[0u64, 0, 0, 1, 1, 1, 2, 2, 15]) } else if ty == 0 && r.chance(1, 2) { *r.pick(&[12u64, 13, 14, 14, 16, 16, 0, 1, 9, 10, 11]) } else { r.below(18) };
+            let twice = k == 18; let k = if k == 18 { 1 } else { k };
             let pl = prev_limit;
             let amt = |r: &mut Rng, limit: u64| -> u64 { if limit > 0 { match r.below(9) { 0 => limit, 1 => limit + 1, 2 => limit.saturating_sub(1).max(1), 3 => 1, 4 => pl.max(1), 5 => pl.saturating_sub(limit).max(1), 6 => 2 * limit, _ => 1 + r.below(limit + 2) } } else { match r.below(4) { 0 => 0, _ => 1 + r.below(50) } } };
             let mut opj; let step;
@@ -94,7 +97,8 @@ pub fn run(seed: u64, ntraces: usize) {
                     let right = cur_token.clone().unwrap_or(tok.clone());
                     // a zero-value ESDT transfer from an account that never held the token is rejected by the debug VM itself
                     let a = if let Some((_, fa)) = fo { fa } else if right == tok { amt(&mut r, limit) } else { amt(&mut r, limit).max(1) };
-                    let (egld, esdt): (u64, Vec<(Vec<u8>, u64, BigUint)>) = match if fo.is_some() { 7 } else { r.below(8) } {
+                    let (egld, esdt): (u64, Vec<(Vec<u8>, u64, BigUint)>) = match if twice { 9 } else if fo.is_some() { 7 } else { r.below(8) } {
+                        9 if right != b"EGLD".to_vec() => (0, vec![(right.clone(), 0, bn(a)), (right.clone(), 0, bn(a / 2))]),
                         0 => (0, vec![(b"OTHER-abcdef".to_vec(), 0, bn(a))]),
                         1 => (a, vec![]),
                         2 => (0, vec![(right.clone(), 0, bn(a)), (b"OTHER-abcdef".to_vec(), 0, bn(1))]),
